@@ -39,8 +39,12 @@ type layerSpec struct {
 	DupOf    int    `json:"dup_of"` // -1, or the index of the earlier layer whose blob is repeated
 	Label    bool   `json:"label"`  // the source blob carries containerd.io/uncompressed
 	Dangling bool   `json:"dangling,omitempty"`
-	Chunk    int    `json:"chunk,omitempty"` // per-layer WithChunkSize (per-layer kinds)
-	Prio     int    `json:"prio"`            // per-layer prioritized marker file, -1 none
+	// Interrupted (with Dangling): the leftover ingest is not garbage but the first N bytes an
+	// interrupted conversion of this very layer wrote under the converter's ref — a conversion
+	// with ANOTHER option set (the ref "convert-…-from-<digest>" does not depend on the options)
+	Interrupted bool `json:"interrupted,omitempty"`
+	Chunk       int  `json:"chunk,omitempty"` // per-layer WithChunkSize (per-layer kinds)
+	Prio        int  `json:"prio"`            // per-layer prioritized marker file, -1 none
 }
 
 type caseSpec struct {
@@ -59,6 +63,11 @@ type caseSpec struct {
 	Reps       int         `json:"reps"`
 	Lean       bool        `json:"lean"`
 	Retry      bool        `json:"retry"` // the last repetition re-converts inside the store of the previous one
+	// Reconvert: after the last repetition the RESULT is converted again, in the same store, by a
+	// fresh converter instance with identical options: "all" = the converted image as it is,
+	// "mixed" = a new image whose even layers are the converted ones and whose odd layers are the
+	// original sources (an image sharing already converted layers), "" = no second step.
+	Reconvert string `json:"reconvert,omitempty"`
 }
 
 func (c caseSpec) family() string {
@@ -81,7 +90,7 @@ func (c caseSpec) external() bool {
 
 func (c caseSpec) desc() string {
 	var sb strings.Builder
-	fmt.Fprintf(&sb, "case %d kind=%s docker=%v docker2oci=%v index=%v labels=%v chunk=%d minchunk=%d level=%d workers=%d prio=%d reps=%d retry=%v layers=[", c.Idx, c.Kind, c.Docker, c.Docker2OCI, c.Index, c.Labels, c.Chunk, c.MinChunk, c.Level, c.Workers, c.Prio, c.Reps, c.Retry)
+	fmt.Fprintf(&sb, "case %d kind=%s docker=%v docker2oci=%v index=%v labels=%v chunk=%d minchunk=%d level=%d workers=%d prio=%d reps=%d retry=%v reconvert=%q layers=[", c.Idx, c.Kind, c.Docker, c.Docker2OCI, c.Index, c.Labels, c.Chunk, c.MinChunk, c.Level, c.Workers, c.Prio, c.Reps, c.Retry, c.Reconvert)
 	for i, l := range c.Layers {
 		if i > 0 {
 			sb.WriteString(" ")
@@ -94,7 +103,9 @@ func (c caseSpec) desc() string {
 		if l.Label {
 			sb.WriteString("+label")
 		}
-		if l.Dangling {
+		if l.Dangling && l.Interrupted {
+			sb.WriteString("+interrupted")
+		} else if l.Dangling {
 			sb.WriteString("+dangling")
 		}
 		if c.perLayer() {
@@ -149,6 +160,11 @@ func genCase(rng *prng.R, idx int, reps int, lean bool) caseSpec {
 		c.Prio = -1 // the lossless converter takes no prioritized files
 	}
 	c.Retry = reps > 1 && rng.Chance(1, 3)
+	if c.external() {
+		c.Reconvert = rng.PickS("all", "mixed")
+	} else {
+		c.Reconvert = rng.PickS("", "", "", "", "all", "mixed")
+	}
 	n := rng.Range(8, 16)
 	if rng.Chance(1, 5) {
 		n = rng.Range(1, 7)
@@ -181,6 +197,7 @@ func genCase(rng *prng.R, idx int, reps int, lean bool) caseSpec {
 		}
 		l.Label = rng.Chance(1, 2)
 		l.Dangling = rng.Chance(1, 4)
+		l.Interrupted = rng.Bool()
 		if c.perLayer() {
 			l.Chunk = perLayerChunks[(chunkBase+j)%len(perLayerChunks)]
 			if rng.Chance(1, 8) {
